@@ -682,8 +682,8 @@ Proof.
   - destruct (str_eqb k (vlit "b")); [|discriminate].
     inversion G; inversion G'; subst. reflexivity.
 Qed.
-(* ... and the eleventh row does matter to nothing but the row count: a line feed inside a shown
-   cell changes the line count, so the hypothesis of string_lines cannot be dropped *)
+(* a line feed inside a shown cell changes the line count (4 here, where the formula gives 3),
+   so the hypothesis of string_lines on the rendered cells cannot be dropped *)
 Example ex_string_lines_needs_clean_cells :
   count_nl (op_string exO [(vlit "a", (vlit "a", [CS (vlit "p" ++ s_nl ++ vlit "q")]))]) = 4%nat.
 Proof. vm_compute. reflexivity. Qed.
